@@ -12,6 +12,17 @@ OP_NOTE = ("Trusted: TLC; the harness store (harness/modelstore) as an implement
            "implementation traces are TLC-simulated behaviours plus seeded random histories, not all histories.")
 
 CLAIMS = {
+    "C14": dict(level="model_checking", ref="DESIGN.md §3 C14",
+                text="Two decision-table specs. spec/Assertion.tla: assertion (iss, sub, aud, exp, iat, signing key of client A / B / nobody, header kid, alg, "
+                     "payload edit) x verifier configuration (subject check default / delegation, max age) x identity probe; TLC checks the transcription of "
+                     "op.VerifyJWTAssertion against the property sentence; each exported case is signed for real and run through op.VerifyJWTAssertion, "
+                     "grant_type=jwt-bearer and an authorization-code exchange with client_assertion on both routers (the code belongs to the probe client, so "
+                     "tokens mean the provider took the caller for that client). spec/RequestObject.tla: request object (iss, client_id, aud, response_type, "
+                     "key, kid, alg, payload edit, provider flag) on GET /authorize of both routers; observed: login or refusal and whether the stored state / "
+                     "nonce / scope / code_challenge come from the object or from the query. The monitors judge with the same rules.",
+                technique="TLA+ decision-table specs model-checked with TLC; TLC-exported cases executed on the real verifier and both routers; observed outcomes judged by the TLA+ monitors",
+                note="Trusted: TLC; byte-level construction of assertions (harness/tbldrv/assertion.go); harness store's per-client key table. "
+                     "EdDSA assertions (Ed25519 client keys) are refused by the provider's fixed default list: counted as either verdict."),
     "C02": dict(level="model_checking", ref="DESIGN.md §3 C02",
                 text="Decision-table spec spec/Signature.tla: case = (published key set of <= 2 keys [type, kid, use], token [serialisation, header alg, "
                      "header kid, who signed, payload edit, allowed-algorithm list]). TLC checks the transcription of oidc.ParseToken + CheckSignature + "
